@@ -99,4 +99,14 @@ PROPS = {
         "not_decided": ["the main clause: no panic / stack overflow across build, validate, serialize, introspect, render for every input text",
                         "RecursionGuard (IndexSet + ahash: not executable under Kani without stubbing getrandom)", "diagnostics sorted by position (std sort_by_key)"],
     },
+    "C23": {
+        "level": "model_checking",
+        "kani": ["apollo-compiler/coordinate.rs"],
+        "technique": "bounded Kani/CBMC harnesses: every string of a fixed length over a byte-class alphabet, against a scanner transcription of the five coordinate forms",
+        "explanation": "BOUNDED stand-in (not a proof): for every string of length <= 3 (per kind; up to 7 in thorough) over the 11-byte class alphabet {a Z 7 _ . ( ) : @ - SP}, "
+                       "each of the six from_str functions returns Ok iff the string has the corresponding form Name | Name.Name | Name.Name(Name:) | @Name | @Name(Name:), "
+                       "and the parsed component names are exactly the corresponding substrings (so printing gives back the input: Display is a format string of those pieces).",
+        "not_decided": ["strings longer than the bound (the accepting paths of Name.Name(Name:) need length >= 7 and are reached only in the thorough tier, where CBMC may time out)",
+                        "bytes outside the class alphabet (covered for names by C10's unbounded Name proof)", "Display impls", "lookup in a schema (IndexMap)"],
+    },
 }
